@@ -14,6 +14,8 @@
 (*                section and custom items                                 *)
 (*   tape.order : the member order after the call (used by Members::next   *)
 (*                when a reshuffle is due)                                 *)
+(*   tape.pind  : the helpers registered in the probe after the call (only *)
+(*                used to name the helper whose PingReq failed to encode)  *)
 (* hl is the BroadcastHandler's verdict log (environment), dbg tells       *)
 (* whether debug assertions are compiled in.                               *)
 (*                                                                         *)
@@ -34,10 +36,11 @@ NodeInit(id, pol, codec, hrel, hpred, cfg) ==
      probe |-> ProbeInit, upd |-> <<>>, cus |-> <<>>,
      cfg |-> cfg, bufcap |-> cfg.maxpkt]
 
-EmptyTape == [sends |-> <<>>, order |-> <<>>]
+EmptyTape == [sends |-> <<>>, order |-> <<>>, pind |-> <<>>]
 
 Ctx(st, tape, hl, dbg) ==
     [st |-> st, out |-> <<>>, sends |-> tape.sends, ti |-> 1, order |-> tape.order,
+     pind |-> tape.pind,
      ok |-> TRUE, err |-> "", panic |-> FALSE, r |-> FALSE, hv |-> 0,
      ins |-> <<>>, hl |-> hl, hi |-> 1, hcalls |-> <<>>, dbg |-> dbg]
 
@@ -147,8 +150,11 @@ SendEach(c, dsts, msg) ==
 (* were observed than members had to be chosen, the only legal reason is   *)
 (* an Encode failure for the next (unobserved) destination.                *)
 (***************************************************************************)
+WouldPanic(c) == c.dbg /\ c.st.bufcap # c.st.cfg.maxpkt
+
 ChooseAndSend(c, k, msg, elig) ==
     IF ~Live(c) THEN c ELSE
+    IF Min(k, Cardinality(elig)) > 0 /\ WouldPanic(c) THEN [c EXCEPT !.panic = TRUE] ELSE
     LET n == Min(k, Cardinality(elig))
         avail == Len(c.sends) - c.ti + 1
         m == Min(n, Max(avail, 0))
@@ -364,11 +370,13 @@ SendIndirectProbe(c, probed) ==
                 dsts == [i \in 1..m |-> c.sends[c.ti + i - 1].dst]
                 valid == IsDistinct(dsts) /\ Range(dsts) \subseteq elig
                 c2 == IndirectEach([c1 EXCEPT !.ok = @ /\ valid], dsts, probed)
-            IN IF m = n \/ ~Live(c2) THEN c2
-               ELSE IF \E e \in elig \ Range(dsts) :
-                          ~HeaderFits(c2.st, e, Msg("PingReq", c2.st.probe.n, probed))
-                    THEN \* the helper was registered before the failing send
-                         Fail(c2, "Err:Encode")
+            IN IF n > 0 /\ WouldPanic(c1) THEN [c1 EXCEPT !.panic = TRUE]
+               ELSE IF m = n \/ ~Live(c2) THEN c2
+               ELSE \* the next helper was registered, then its PingReq failed to encode
+                    LET e == IF c.pind = <<>> THEN NoId ELSE c.pind[Len(c.pind)] IN
+                    IF e \in elig \ Range(dsts)
+                       /\ ~HeaderFits(c2.st, e, Msg("PingReq", c2.st.probe.n, probed))
+                    THEN Fail([c2 EXCEPT !.st.probe = ProbeExpectIndirect(@, e)], "Err:Encode")
                     ELSE [c2 EXCEPT !.ok = FALSE]
 
 ChangeSuspectToDown(c, t) ==
@@ -508,7 +516,9 @@ DoBroadcast(st, tape, hl, dbg) ==
     LET c == Ctx(st, tape, hl, dbg) IN
     IF st.cus = <<>> THEN Finish(c, "Ok")
     ELSE LET elig == {i \in ActiveIds(st.mem) : PredHolds(st.hpred, i)}
-         IN Finish(BroadcastEach(c, Min(st.cfg.fanout, Cardinality(elig)), {}, elig), "Ok")
+             n == Min(st.cfg.fanout, Cardinality(elig))
+         IN IF n > 0 /\ WouldPanic(c) THEN Finish([c EXCEPT !.panic = TRUE], "Ok")
+            ELSE Finish(BroadcastEach(c, n, {}, elig), "Ok")
 
 DoLeave(st, tape, hl, dbg) ==
     LET c == Ctx(st, tape, hl, dbg)
